@@ -636,6 +636,11 @@ func c19Exec(r *sim.Run, sci interface{}) {
 		if err != nil {
 			res = "err:" + status.Code(err).String()
 		}
+		if via == "api" && who != "init" {
+			// calls that end at the same instant (same deadline) return in an
+			// order the runtime picks: pass a gate before anything observable
+			r.Yield("api-returned")
+		}
 		r.Eventf("%s %s %s %s=%q %s -> rev %d", who, via, op.Kind, op.Key, op.Val, res, env.store.Rev())
 	}
 
@@ -672,7 +677,11 @@ func c19Exec(r *sim.Run, sci interface{}) {
 	for _, s := range syncs {
 		s := s
 		r.Go(fmt.Sprintf("cons%d", s.idx), func() {
-			r.Sleep(time.Duration(s.cfg.StartUs) * time.Microsecond)
+			// every task runs on its own sub-microsecond offset (all other
+			// durations are whole microseconds), so that timers armed by different
+			// tasks never expire at the same instant (ties fire in an order the
+			// runtime does not reproduce)
+			r.Sleep(time.Duration(s.cfg.StartUs)*time.Microsecond + time.Duration(101+13*s.idx))
 			sy, err := cl.Syncer(time.Duration(s.cfg.PullMs) * time.Millisecond)
 			if err != nil {
 				r.Violate("C19.harness", "Syncer: %v", err)
@@ -828,6 +837,7 @@ func c19Exec(r *sim.Run, sci interface{}) {
 			wg.Add(1)
 			r.Go(fmt.Sprintf("p%dw%d", pi, wi), func() {
 				defer wg.Done()
+				r.Sleep(time.Duration(7 * (wi + 1)))
 				for _, op := range wr.Ops {
 					if r.Violated() || r.Aborted() {
 						return
@@ -845,6 +855,7 @@ func c19Exec(r *sim.Run, sci interface{}) {
 		wg.Add(1)
 		r.Go(fmt.Sprintf("p%dfaults", pi), func() {
 			defer wg.Done()
+			r.Sleep(time.Duration(307))
 			t0 := r.Now()
 			for _, f := range faults {
 				if r.Violated() || r.Aborted() {
